@@ -61,15 +61,15 @@ func (i c16Instant) time() (time.Time, error) {
 var c16FixedZones = []c16Zone{
 	{Kind: "utc"},
 	{Kind: "fixed", Name: "", Offset: 0},
-	{Kind: "fixed", Name: "NPT", Offset: 5*3600 + 45*60},     // +05:45
-	{Kind: "fixed", Name: "NST", Offset: -(3*3600 + 30*60)},   // -03:30
-	{Kind: "fixed", Name: "LINT", Offset: 14 * 3600},          // +14:00
-	{Kind: "fixed", Name: "AoE", Offset: -12 * 3600},          // -12:00
-	{Kind: "fixed", Name: "CET", Offset: 3600},                // +01:00
-	{Kind: "fixed", Name: "LMT", Offset: 19*60 + 32},          // +00:19:32 (seconds offset)
+	{Kind: "fixed", Name: "NPT", Offset: 5*3600 + 45*60},        // +05:45
+	{Kind: "fixed", Name: "NST", Offset: -(3*3600 + 30*60)},     // -03:30
+	{Kind: "fixed", Name: "LINT", Offset: 14 * 3600},            // +14:00
+	{Kind: "fixed", Name: "AoE", Offset: -12 * 3600},            // -12:00
+	{Kind: "fixed", Name: "CET", Offset: 3600},                  // +01:00
+	{Kind: "fixed", Name: "LMT", Offset: 19*60 + 32},            // +00:19:32 (seconds offset)
 	{Kind: "fixed", Name: "LMT", Offset: -(4*3600 + 56*60 + 2)}, // -04:56:02 (seconds offset)
-	{Kind: "fixed", Name: "X", Offset: -1},                    // one second west
-	{Kind: "fixed", Name: "IST", Offset: 5*3600 + 30*60},      // +05:30
+	{Kind: "fixed", Name: "X", Offset: -1},                      // one second west
+	{Kind: "fixed", Name: "IST", Offset: 5*3600 + 30*60},        // +05:30
 }
 var c16NamedZones = []string{"America/New_York", "Asia/Kathmandu", "Europe/Amsterdam", "Australia/Lord_Howe", "Pacific/Apia", "America/St_Johns"}
 
@@ -188,25 +188,25 @@ var c16LayInfos = map[string]c16LayInfo{
 	time.StampMicro:           {MonthDay: true, Hour: true, Min: true, Sec: true, Frac: 6},
 	c16LayoutZoneSec:          {Year: true, MonthDay: true, Hour: true, Min: true, Sec: true, Frac: 9, Zone: 2},
 	// element sweep (every element of Go's layout language at least once)
-	time.RFC822Z:  {YY: true, MonthDay: true, Hour: true, Min: true, Zone: 1},
-	time.Layout:   {YY: true, MonthDay: true, Hour: true, Min: true, Sec: true, Zone: 1},
-	time.RFC850:   {NoParse: true},
-	time.UnixDate: {NoParse: true},
-	time.RFC1123:  {NoParse: true},
-	"2006-1-2 3:4:5 pm -07":                              {Year: true, MonthDay: true, Hour: true, Min: true, Sec: true, Zone: 3},
-	"Monday, January 2 2006 15:04:05.000000000 Z0700":    {Year: true, MonthDay: true, Hour: true, Min: true, Sec: true, Frac: 9, Zone: 1},
-	"2006-01-02T15:04:05,000Z07":                         {Year: true, MonthDay: true, Hour: true, Min: true, Sec: true, Frac: 3, Zone: 3},
-	"2006-002 15:04:05.999 -07:00:00":                    {Year: true, MonthDay: true, YDay: true, Hour: true, Min: true, Sec: true, Frac: 3, Zone: 2},
-	"2006 __2 15:04:05.99 -070000":                       {Year: true, MonthDay: true, YDay: true, Hour: true, Min: true, Sec: true, Frac: 2, Zone: 2},
-	time.StampMilli:                                      {MonthDay: true, Hour: true, Min: true, Sec: true, Frac: 3},
-	"2006-01-02 15:04:05.999999 Z070000":                 {Year: true, MonthDay: true, Hour: true, Min: true, Sec: true, Frac: 6, Zone: 2},
-	"Mon Jan 2 15:04:05,9 -07:00 2006":                   {Year: true, MonthDay: true, Hour: true, Min: true, Sec: true, Frac: 1, Zone: 1},
-	"06/1/2 03:04PM":                                     {YY: true, MonthDay: true, Hour: true, Min: true},
-	"_2006-01-02/15.04.05":                               {Year: true, MonthDay: true, Hour: true, Min: true, Sec: true},
-	"Jane's Month: Mondays, 2006-01-02 15h04m05s":        {Year: true, MonthDay: true, Hour: true, Min: true, Sec: true},
-	"05.0000000000 2006":                                 {NoParse: true},
-	"2006-01-02T15:04:05.999999999-07:00":                {Year: true, MonthDay: true, Hour: true, Min: true, Sec: true, Frac: 9, Zone: 1},
-	"02/01/2006 15:04:05.00 -0700 MST":                   {NoParse: true},
+	time.RFC822Z:            {YY: true, MonthDay: true, Hour: true, Min: true, Zone: 1},
+	time.Layout:             {YY: true, MonthDay: true, Hour: true, Min: true, Sec: true, Zone: 1},
+	time.RFC850:             {NoParse: true},
+	time.UnixDate:           {NoParse: true},
+	time.RFC1123:            {NoParse: true},
+	"2006-1-2 3:4:5 pm -07": {Year: true, MonthDay: true, Hour: true, Min: true, Sec: true, Zone: 3},
+	"Monday, January 2 2006 15:04:05.000000000 Z0700": {Year: true, MonthDay: true, Hour: true, Min: true, Sec: true, Frac: 9, Zone: 1},
+	"2006-01-02T15:04:05,000Z07":                      {Year: true, MonthDay: true, Hour: true, Min: true, Sec: true, Frac: 3, Zone: 3},
+	"2006-002 15:04:05.999 -07:00:00":                 {Year: true, MonthDay: true, YDay: true, Hour: true, Min: true, Sec: true, Frac: 3, Zone: 2},
+	"2006 __2 15:04:05.99 -070000":                    {Year: true, MonthDay: true, YDay: true, Hour: true, Min: true, Sec: true, Frac: 2, Zone: 2},
+	time.StampMilli:                                   {MonthDay: true, Hour: true, Min: true, Sec: true, Frac: 3},
+	"2006-01-02 15:04:05.999999 Z070000":              {Year: true, MonthDay: true, Hour: true, Min: true, Sec: true, Frac: 6, Zone: 2},
+	"Mon Jan 2 15:04:05,9 -07:00 2006":                {Year: true, MonthDay: true, Hour: true, Min: true, Sec: true, Frac: 1, Zone: 1},
+	"06/1/2 03:04PM":                                  {YY: true, MonthDay: true, Hour: true, Min: true},
+	"_2006-01-02/15.04.05":                            {Year: true, MonthDay: true, Hour: true, Min: true, Sec: true},
+	"Jane's Month: Mondays, 2006-01-02 15h04m05s":     {Year: true, MonthDay: true, Hour: true, Min: true, Sec: true},
+	"05.0000000000 2006":                              {NoParse: true},
+	"2006-01-02T15:04:05.999999999-07:00":             {Year: true, MonthDay: true, Hour: true, Min: true, Sec: true, Frac: 9, Zone: 1},
+	"02/01/2006 15:04:05.00 -0700 MST":                {NoParse: true},
 }
 
 // layouts of the element sweep (beside the grid's)
@@ -272,6 +272,14 @@ func c16NewLogger(c *c16Cell, n int) *slog.Entry {
 	e := slog.VerifEntryOf(slog.New(opts...))
 	switch c.Form {
 	case "set":
+		if n%2 == 0 { // every other logger has a history: what the cell sets was set to something else before
+			if c.Layout != nil {
+				e.SetTimeFormat(time.Kitchen)
+			}
+			if c.UTC != nil {
+				e.SetUTCMode(n%4 == 0)
+			}
+		}
 		if c.UTC != nil {
 			e.SetUTCMode(*c.UTC...)
 		}
@@ -733,6 +741,9 @@ var c16Bases = []int64{
 func runC16(r *Run) {
 	snap := slog.VerifSnapshot()
 	defer resetProcess(snap)
+	// the process zone is not UTC (this sandbox's is): an instant keeps ITS zone in local-time mode, the process zone never shows
+	defer func(l *time.Location) { time.Local = l }(time.Local)
+	time.Local = time.FixedZone("EST5", -5*3600)
 	r.ShardSize = 250
 	r.Coq("Require Import Verif.Model.Base Verif.Model.Decision Verif.Model.Mode Verif.Corr.C16.", "case", "ok")
 	r.Rule = "cells = instant (own-zone and UTC year in 0..9999, any nanosecond part; zones: UTC, fixed offsets incl. +05:45, -03:30, +14:00, -12:00 and offsets with seconds, named IANA zones when the zoneinfo is available) x 8 date/time/microseconds combinations x local-time flag x 3 UTC states (never set, SetUTCMode(true), SetUTCMode(false)) x 8 layout settings (never set + 7 custom incl. RFC3339Nano, Kitchen, millisecond digits, RFC1123Z numeric zone, StampMicro, zone with seconds) x 3 formats, each one record through Entry.WriteThru with the instant; plus argument-list forms of SetUTCMode/SetTimeFormat (no argument, several, empty strings) through Set*, New(With*) and With* children; quick: the whole factor grid once with a different instant per cell, thorough: the whole grid for every instant; direct oracle = zone and layout per the statement, text == instant.In(zone).Format(layout), framing, time.Parse gives the instant's wall-clock fields (and zone offset) to the layout's precision and the absolute instant where the layout has date, time and zone; plus an element sweep (31 layouts covering every element of Go's layout language, on boundary instants - both ends of the year range, both sides of the epoch, leap days, missing leap days of 1900/2100, every end of month - and random ones); correspondence: the model of Go's layout language (Model/TimeFmt.v) renders the instant with the layout and in the zone the regenerated decisions select and must give the observed text byte for byte (route model+candidate; candidate-only where the instant is outside the model's domain), the specification-side reader must return the instant where the round-trip theorem's hypotheses hold and agree with time.Parse wherever that reads the text; layouts with a zone abbreviation are rendered and compared but parse-back is not asked of them; non-trivial = non-UTC zone with a sub-second part; distinct by (instant, zone, flags, utc arguments, layout arguments, form, format)"
